@@ -390,3 +390,20 @@ LEVEL_TEXT += _ADD18
 _ADD22 = ' Borrowed: R09.1 (alias source precedence).'
 EXPLANATION += _ADD22
 LEVEL_TEXT += _ADD22
+
+
+_run_before_r6b = run
+
+
+def run(repo, rep, tier):  # noqa: F811 -- round-6 remedies (core/round6.py)
+    _run_before_r6b(repo, rep, tier)
+    if getattr(rep, "borrowed", False):
+        return
+    from ..core import round6 as _r6b
+    _r6b.nullability_sites_agree(repo, rep, "R08.10")
+    _r6b.element_positions_nullable(repo, rep, "R05.15")
+
+
+_ADDR6C = '  Borrowed: R08.10, R05.15.'
+EXPLANATION += _ADDR6C
+LEVEL_TEXT += _ADDR6C
